@@ -38,11 +38,17 @@ class Seam:
         self.prefix = os.path.join(os.path.realpath(a5_root), 'a5') + os.sep
         self.gran = gran
         self.handler = None
+        self.ihandler = None
         self.tool = None
         self.foreign = 0
         self._lines = {}
 
-    def install(self):
+    def install(self, ipoints=False):
+        """ipoints=True additionally delivers *interrupt points* to self.ihandler:
+        the places where this interpreter checks its eval breaker, i.e. where an
+        asynchronous exception (signal -> KeyboardInterrupt) can really surface
+        and where a thread switch really happens: function entry (PY_START),
+        return from a C call (C_RETURN), and backward jumps (JUMP)."""
         for tid in (4, 3, 5, 2):
             if mon.get_tool(tid) is None:
                 break
@@ -50,9 +56,45 @@ class Seam:
             raise RuntimeError('no free sys.monitoring tool id')
         mon.use_tool_id(tid, 'a5sim')
         self.tool = tid
-        ev = mon.events.LINE if self.gran == 'line' else mon.events.INSTRUCTION
+        E = mon.events
+        ev = E.LINE if self.gran == 'line' else E.INSTRUCTION
         mon.register_callback(tid, ev, self._cb)
+        if ipoints:
+            mon.register_callback(tid, E.PY_START, self._icb)
+            mon.register_callback(tid, E.C_RETURN, self._icb_c)
+            mon.register_callback(tid, E.JUMP, self._icb_j)
+            ev |= E.PY_START | E.CALL | E.JUMP          # C_RETURN is delivered when CALL is enabled
         mon.set_events(tid, ev)
+
+    def _icb(self, code, off):
+        if not code.co_filename.startswith(self.prefix):
+            return mon.DISABLE
+        h = self.ihandler
+        if h is not None:
+            h(code, off)
+
+    def _icb_c(self, code, off, callable_, arg0):
+        if not code.co_filename.startswith(self.prefix):
+            return None                                  # (C_RETURN cannot be disabled per location)
+        h = self.ihandler
+        if h is not None:
+            h(code, off)
+
+    def _icb_j(self, code, off, dest):
+        if not code.co_filename.startswith(self.prefix):
+            return mon.DISABLE
+        if dest < off:
+            h = self.ihandler
+            if h is not None:
+                h(code, off)
+
+    def iloc(self, code, off):
+        """'rel/path.py:line' of an interrupt point (off is a bytecode offset)."""
+        g, self.gran = self.gran, 'instr'
+        try:
+            return '%s:%d' % (code.co_filename[len(self.prefix):], self.line_of(code, off))
+        finally:
+            self.gran = g
 
     def uninstall(self):
         if self.tool is not None:
@@ -127,16 +169,24 @@ def solo_call(a5mod, seam, call, want_trace=False, cap=3_000_000):
                 raise SimAbort()
     global _history_mode
     _history_mode = True                 # one thread only: a blocking wait can never be satisfied
+    itrace = []
+
+    def ih(code, off):
+        itrace.append(seam.iloc(code, off))
+
     args = [canon.dec(a) for a in call['a']]
     seam.handler = h
+    seam.ihandler = ih
     try:
         outcome, _ = apply_call(a5mod, call['f'], args)
     except SimAbort:
         outcome = ['abort', 'cap']
     finally:
         seam.handler = None
+        seam.ihandler = None
     post = [canon.enc(a) for a in args]
-    return {'outcome': outcome, 'steps': counter[0], 'args_kept': post == call['a'], 'trace': trace}
+    return {'outcome': outcome, 'steps': counter[0], 'args_kept': post == call['a'], 'trace': trace,
+            'isteps': len(itrace), 'itrace': itrace}
 
 
 def _solo_outcome(a5mod, call):
@@ -185,11 +235,12 @@ def run_seq_node(a5mod, seam, spec):
     kill = [spec.get('kill')]
     cur = [0]
 
-    def handler(code, pos):
+    def ihandler(code, off):
         t = cur[0]
         k = kill[0]
         if k is not None and k['t'] == t and tsteps[t] == k['k']:
             kill[0] = None
+            tsteps[t] += 1
             raise _EXC[k['exc']]('injected by simulator')
         tsteps[t] += 1
 
@@ -197,11 +248,11 @@ def run_seq_node(a5mod, seam, spec):
         call = spec['threads'][t][idx[t]]
         args = [canon.dec(a) for a in call['a']]
         cur[0] = t
-        seam.handler = handler
+        seam.ihandler = ihandler
         try:
             outcome, _ = apply_call(a5mod, call['f'], args)
         finally:
-            seam.handler = None
+            seam.ihandler = None
         res[t][idx[t]] = [outcome, [canon.enc(a) for a in args] == call['a']]
         idx[t] += 1
     post, post_seq = post_quiescence(a5mod, spec['threads'])
@@ -794,11 +845,13 @@ def patch_threading():
     threading.Semaphore = CoopSemaphore
     threading.BoundedSemaphore = CoopBoundedSemaphore
     threading.Event = CoopEvent
+    threading._allocate_lock = CoopLock          # (threading internals created from now on)
 
 
 def unpatch_threading():
     for k, v in _orig.items():
         setattr(threading, k, v)
+    threading._allocate_lock = _real_allocate_lock
 
 
 # --------------------------------------------------------------------------
@@ -813,6 +866,7 @@ class Sched:
         self.kill = None
         self.killed = None
         self._pos = None
+        self.tipoints = [0] * len(thread_calls)
         self.timed = [False] * len(thread_calls)
         self.woke_by_timeout = [False] * len(thread_calls)
         self.timeouts_fired = 0
@@ -893,12 +947,6 @@ class Sched:
             self._abort('harness: a5 code ran without the baton')
         if self.steps >= self.budget:
             self._abort('budget')
-        k = self.kill
-        if k is not None and k['t'] == t and self.tsteps[t] == k['k']:
-            # fault: this thread's current call dies here (failed allocation / cancellation)
-            self.kill = None
-            self.killed = [t, len(self.results[t]), self.seam.loc(code, pos)]
-            raise _EXC[k['exc']]('injected by simulator')
         if self.hot is not None:
             h = (code.co_filename, self.seam.line_of(code, pos)) in self.hot
             self.plan.hot_now = h or self.prev_hot[t]
@@ -918,6 +966,21 @@ class Sched:
         self.tsteps[t] += 1
         self.steps += 1
         self.seg_n += 1
+
+    def on_ipoint(self, code, off):
+        """An interrupt point of the baton holder (function entry, return from a C
+        call, backward jump): where the 'kill' fault may surface."""
+        t = self.cur
+        if t is None or self.idents[t] != _thread.get_ident():
+            return
+        k = self.kill
+        n = self.tipoints[t]
+        self.tipoints[t] = n + 1
+        if k is not None and k['t'] == t and n == k['k']:
+            # fault: this thread's current call dies here (failed allocation / cancellation)
+            self.kill = None
+            self.killed = [t, len(self.results[t]), self.seam.iloc(code, off)]
+            raise _EXC[k['exc']]('injected by simulator')
 
     # -- cooperative lock support ------------------------------------------
     def _fire_timeout(self):
@@ -1015,9 +1078,11 @@ class Sched:
         self.cur = first
         self.active = True
         self.seam.handler = self.on_step
+        self.seam.ihandler = self.on_ipoint if self.kill is not None else None
         self.locks[first].release()
         self.main_lock.acquire()                 # all done, or aborted
         self.seam.handler = None
+        self.seam.ihandler = None
         self.active = False
         _current_sched = None
         if self.aborted is None:
@@ -1183,16 +1248,23 @@ def run_history_node(a5mod, seam, spec):
 
     cap = spec.get('call_cap', 4_000_000)
 
+    icount = [0]
+
     def handler(code, pos):
         counter[0] += 1
         if counter[0] > cap:
             raise SimAbort()
+
+    def ihandler(code, off):
+        # an interrupt point: the exception surfaces here, as a real asynchronous one would
         inj = inject[0]
-        if inj is not None and counter[0] - 1 == inj[0]:
+        if inj is not None and icount[0] == inj[0]:
             inject[0] = None
             landed[0] = True
-            lastloc[0] = seam.loc(code, pos)
+            lastloc[0] = seam.iloc(code, off)
+            icount[0] += 1
             raise inj[1]('injected by simulator')
+        icount[0] += 1
 
     for call in spec.get('warm', []):
         args = [canon.dec(a) for a in call['a']]
@@ -1241,11 +1313,13 @@ def run_history_node(a5mod, seam, spec):
                 fname = op['f']
             pre = [canon.enc(a) for a in args]
             counter[0] = 0
+            icount[0] = 0
             landed[0] = False
             lastloc[0] = None
             if kind == 'interrupt':
                 inject[0] = (op['k'], _EXC[op['exc']])
             seam.handler = handler
+            seam.ihandler = ihandler if kind == 'interrupt' else None
             try:
                 outcome, val = apply_call(a5mod, fname, args)
             except SimDeadlock:
@@ -1256,6 +1330,7 @@ def run_history_node(a5mod, seam, spec):
                 outcome, val = ['abort', 'cap'], None
             finally:
                 seam.handler = None
+                seam.ihandler = None
                 inject[0] = None
             post = [canon.enc(a) for a in args]
             owned[oid] = (args, val, fname)
